@@ -16,20 +16,24 @@ def replay(w):
         if kind in ('type', 'value'):
             N, W = int(nt['N']), int(nt['W'])
             n = N * W
-            rng = np.random.default_rng(0)
-            A = rng.standard_normal((n, n))
-            S = A @ A.T / n + 0.1 * np.eye(n)
-            val = int(inp.get('lam', 1)) if kind == 'type' else 0.25
-            ref = admm.admm_optimize_theta(S, float(val), W, N, max_iterations=25).theta
-            if kind == 'value':
-                got = admm.admm_optimize_theta(S, np.full((n, n), float(val)), W, N, max_iterations=25).theta
-                sig = 'scalar-vs-matrix-lambda-differ'
-            else:
-                got = admm.admm_optimize_theta(S, FORMS[nt['tag']](val), W, N, max_iterations=25).theta
-                sig = 'lambda-type-form-differs'
-            bad = not np.allclose(got, ref, rtol=1e-9, atol=1e-12)
-            return {'reproduced': bool(bad), 'signature': sig if bad else None,
-                    'observed': {'ref': np.asarray(ref).tolist(), 'got': np.asarray(got).tolist()}}
+            worst = None
+            for seed in range(6):
+                rng = np.random.default_rng(seed)
+                A = rng.standard_normal((n, n))
+                S = A @ A.T / n + 0.1 * np.eye(n)
+                for val in ([int(inp.get('lam', 1))] if kind == 'type' else [0.01, 0.25]):
+                    ref = admm.admm_optimize_theta(S, float(val), W, N, max_iterations=25).theta
+                    if kind == 'value':
+                        got = admm.admm_optimize_theta(S, np.full((n, n), float(val)), W, N, max_iterations=25).theta
+                        sig = 'scalar-vs-matrix-lambda-differ'
+                    else:
+                        got = admm.admm_optimize_theta(S, FORMS[nt['tag']](val), W, N, max_iterations=25).theta
+                        sig = 'lambda-type-form-differs'
+                    if not np.allclose(got, ref, rtol=1e-9, atol=1e-12):
+                        return {'reproduced': True, 'signature': sig,
+                                'observed': {'lambda': val, 'ref': np.asarray(ref).tolist(), 'got': np.asarray(got).tolist()}}
+                    worst = {'ref': np.asarray(ref).tolist(), 'got': np.asarray(got).tolist()}
+            return {'reproduced': False, 'signature': None, 'observed': worst}
         if kind == 'beta':
             T, K = int(nt['T']), int(nt['K'])
             cost = np.array([[flt(inp.get('c_%d_%d' % (i, k), 0)) for k in range(K)] for i in range(T)])
